@@ -100,8 +100,10 @@ def parseElem (s : String) : Option Order.Elem :=
   | _ => none
 
 def parseLoc (s : String) : Option Order.OptLoc :=
-  match (s.splitOn ",").map String.toNat? with
-  | [some h, some l, some i] => some ⟨h != 0, l, i⟩
+  match s.splitOn "," with
+  | [h, l, i, n] => match h.toNat?, l.toNat?, i.toNat?, fromHex n with
+    | some h, some l, some i, some n => some ⟨h != 0, l, i, n⟩
+    | _, _, _, _ => none
   | _ => none
 
 def indexList (xs : List Nat) : String := ",".intercalate (xs.map toString)
@@ -137,9 +139,10 @@ def step (line : String) : String :=
     match (commaList syms).mapM parseSym with
     | some ss =>
       let tab : RefName.Tab := ⟨ss, (commaList pkgs).map dotted⟩
-      let name := RefName.refName (dotted cp) (dotted c) (dotted tp) (dotted t)
-      let res := RefName.resolve tab (dotted cp) (dotted c) (only == "1") name
-      "name=" ++ undot name ++ " res=" ++ (match res with | some p => undot p | none => "err")
+      let name := RefName.refName tab (dotted cp) (dotted c) (dotted tp) (dotted t)
+      let res := RefName.resolveName tab (dotted cp) (dotted c) (only == "1") name
+      "name=" ++ (if name.abs then "." else "") ++ undot name.parts ++ " res=" ++
+        (match res with | some p => undot p | none => "err")
     | none => "bad-op"
   | ["less", a, b] => match parseElem a, parseElem b with
     | some x, some y => toString (Order.less x y)
